@@ -2,7 +2,7 @@
   C10 — Envelope life-cycle outcomes follow its abstract state over any history.
 
   Only property theorems live here (helper lemmas: Proofs/C10.lean,
-  Proofs/Envelope.lean, Proofs/Header.lean).  The concrete state machine is
+  Proofs/Envelope.lean, Proofs/Header.lean, Proofs/EnvelopeSrc.lean).  The concrete state machine is
   `Env.step` (Model/Envelope.lean, mirroring /repo/envelope.go as it is now);
   the abstract state `Abs`, the outcome table `specOutcome` and the abstract
   successor `specStep` are in Spec/C10.lean.
@@ -11,6 +11,8 @@ import GoblVerif.Spec.C10
 import GoblVerif.Proofs.C10
 import GoblVerif.Generated.HeaderFacts
 import GoblVerif.Generated.EnvelopeFacts
+import GoblVerif.Generated.EnvelopeSrc
+import GoblVerif.Proofs.EnvelopeSrc
 
 namespace GoblVerif.Props.C10
 open GoblVerif GoblVerif.Spec.C10
@@ -393,6 +395,213 @@ example : (Env.run exH (emptyEnv exUuid) [.insert exInvoiceNoCode, .validate, .s
     = [.ok, .ok, .validation, .ok, .ok, .ok] := by decide
 
 example : (emptyEnv exUuid).head.WF := by decide
+
+/-! ## the tie to the source: /repo/envelope.go translated by go2lean
+
+`Generated/EnvelopeSrc.lean` is the Go text of `Signed`, `Validate`,
+`ValidateWithContext`, `verifyDigest`, `Sign`, `Unsign`, `calculate`, `Calculate`,
+`Insert`, `verifySignature` and `Verify` translated on every run; the calls that
+leave envelope.go (signing, digest, struct validation, document calculation,
+uuid, error wrapping) are the declared primitives of Model/EnvelopeSrcPrims.lean.
+Each regenerated definition is proved equal, for all arguments, to the model
+transition it was written for, so `refines` is a statement about what the code
+says now.  `EnvSrc.ofEnv H sch e` is the Go envelope that stands for the model's
+`e` (`$schema` = sch, the header pointer non-nil, the document's digest =
+`digestOf H`); `EnvSrc.goErr o` is the `*gobl.Error` with the key of the class
+`o` (nil for ok). -/
+namespace Src
+open GoblVerif.Generated GoblVerif.EnvSrc
+
+theorem all_translated : EnvelopeSrc.untranslated = [] := by decide
+
+theorem translated_as_listed : EnvelopeSrc.translated =
+    ["Envelope.Signed", "var ErrDigest", "Envelope.verifyDigest", "Envelope.ValidateWithContext", "Envelope.Validate",
+     "Envelope.Unsign", "var ErrValidation", "var ErrSignature", "Envelope.Sign", "var EnvelopeSchema",
+     "var ErrCalculation", "Envelope.calculate", "var ErrNoDocument", "Envelope.Calculate", "var ErrInternal",
+     "Envelope.Insert", "Envelope.verifySignature", "Envelope.Verify"] := by decide
+
+theorem struct_Envelope_as_mapped :
+    EnvelopeSrc.struct_Envelope = [("Schema", "schema.ID"), ("Head", "*head.Header"), ("Document", "*schema.Object"),
+      ("Signatures", "[]*dsig.Signature")] ∧
+    EnvelopeSrc.structLean_Envelope = ("GoblVerif.EnvSrc.Envelope", ["Schema", "Head", "Document", "Signatures"]) ∧
+    EnvelopeSrc.structOmitted_Envelope = [] := by decide
+
+theorem struct_Header_as_mapped :
+    EnvelopeSrc.struct_head_Header = [("UUID", "uuid.UUID"), ("Digest", "*dsig.Digest"), ("Stamps", "[]*head.Stamp"),
+      ("Links", "[]*head.Link"), ("Tags", "[]string"), ("Meta", "cbc.Meta"), ("Notes", "string")] ∧
+    EnvelopeSrc.structLean_head_Header = ("GoblVerif.Header", ["uuid", "dig", "stamps", "links", "tags", "metas", "notes"]) ∧
+    EnvelopeSrc.structOmitted_head_Header = [] ∧
+    EnvelopeSrc.struct_dsig_Digest = [("Algorithm", "dsig.DigestAlgorithm"), ("Value", "string")] ∧
+    EnvelopeSrc.structOmitted_dsig_Digest = [] := by decide
+
+/-- what the translation assumes beyond its general reading of Go: the
+    primitives (Model/EnvelopeSrcPrims.lean says what each means), the
+    functions that write their receiver, the writes through the header pointer,
+    the calls among them, the primitives that fill an out-parameter -/
+theorem assumptions_as_reviewed :
+    EnvelopeSrc.nonNilElems = ["[]*head.Link", "[]*head.Stamp"] ∧
+    EnvelopeSrc.mapRanges = [] ∧ EnvelopeSrc.mapNilTests = [] ∧
+    EnvelopeSrc.mapWrites = [("Envelope.Verify", "ve[strconv.Itoa(i)]")] ∧
+    EnvelopeSrc.inOutParams = [("Envelope.Unsign", "e"), ("Envelope.Sign", "e"), ("Envelope.calculate", "e"),
+      ("Envelope.Calculate", "e"), ("Envelope.Insert", "e")] ∧
+    EnvelopeSrc.ptrWrites = [("Envelope.calculate", "e.Head.UUID"), ("Envelope.calculate", "e.Head.Digest")] ∧
+    EnvelopeSrc.inOutCalls = [("Envelope.Calculate", "e.calculate()"), ("Envelope.Insert", "e.calculate()")] ∧
+    EnvelopeSrc.outPrimCalls = [("Envelope.verifySignature", "sig.UnsafePayload(h)"),
+      ("Envelope.verifySignature", "sig.VerifyPayload(k, h)")] ∧
+    EnvelopeSrc.natSubs = [] ∧ EnvelopeSrc.fuelChecks = [] := by decide
+
+theorem named_types_as_reviewed :
+    EnvelopeSrc.namedTypes.map (fun x => (x.1, x.2.2)) =
+      [("context.Context", "Bool"), ("dsig.PrivateKey", "GoblVerif.Key"), ("dsig.PublicKey", "GoblVerif.Key"),
+       ("dsig.Signature", "GoblVerif.Sig"), ("error", "Option GoblVerif.EnvSrc.Err"), ("schema.ID", "String"),
+       ("schema.Object", "GoblVerif.EnvSrc.Obj"), ("uuid.UUID", "String")] := by decide
+
+theorem primitives_as_reviewed : EnvelopeSrc.primitives = [
+    ("Envelope.Digest", "GoblVerif.EnvSrc.digestPrim {0}"),
+    ("Error.WithCause", "GoblVerif.EnvSrc.withCause {0} {1}"),
+    ("Error.WithReason", "{0}"),
+    ("NewError", "(some (GoblVerif.EnvSrc.Err.gobl {0:lit}))"),
+    ("context.Background", "false"),
+    ("dsig.Digest.Equals", "GoblVerif.EnvSrc.digestEquals {0} {1}"),
+    ("dsig.PrivateKey.Sign", "GoblVerif.EnvSrc.keySign {0} {1}"),
+    ("dsig.Signature.UnsafePayload", "GoblVerif.EnvSrc.sigPayload {0}"),
+    ("dsig.Signature.VerifyPayload", "GoblVerif.EnvSrc.sigVerifyPayload {0} {1}"),
+    ("errors.New", "GoblVerif.EnvSrc.errNew {0:lit}"),
+    ("head.Header.Contains", "GoblVerif.Header.contains ({0}.get!) ({1}.get!)"),
+    ("head.NewHeader", "GoblVerif.EnvSrc.newHeader"),
+    ("internal.SignedContext", "true"),
+    ("schema.CheckNullElements", "GoblVerif.EnvSrc.checkNull {0}"),
+    ("schema.ID.Add", "GoblVerif.EnvSrc.envelopeSchemaId"),
+    ("schema.NewObject", "GoblVerif.EnvSrc.newObject {0}"),
+    ("schema.Object.Calculate", "GoblVerif.EnvSrc.objCalculate {0}"),
+    ("schema.Object.IsEmpty", "GoblVerif.EnvSrc.objIsEmpty {0}"),
+    ("strconv.Itoa", "(toString {0})"),
+    ("uuid.UUID.IsZero", "GoblVerif.EnvSrc.uuidIsZero {0}"),
+    ("uuid.V7", "GoblVerif.EnvSrc.freshUUID"),
+    ("validation.ValidateStructWithContext", "GoblVerif.EnvSrc.validateStruct {0} {1}"),
+    ("wrapError", "GoblVerif.EnvSrc.wrapError {0}")] := by decide
+
+/-- **`(*Envelope).Signed`, regenerated, is `Env.signed`** -/
+theorem src_Signed (sch : String) (e : Env) : EnvelopeSrc.Envelope_Signed (ofEnv H sch e) = e.signed :=
+  EnvSrc.src_Signed H sch e
+
+/-- **`(*Envelope).Unsign`, regenerated, is `Env.unsign`** (only the signatures
+    go: header and stamps stay, C10-4) -/
+theorem src_Unsign (sch : String) (e : Env) :
+    EnvelopeSrc.Envelope_Unsign (ofEnv H sch e) = ofEnv H sch e.unsign :=
+  EnvSrc.src_Unsign H sch e
+
+/-- **`(*Envelope).Validate` (through `ValidateWithContext` and `verifyDigest`),
+    regenerated, is `Env.validate`**: the signed context exactly when there are
+    signatures, struct validation first, then the digest comparison — for every
+    envelope with a `$schema` -/
+theorem src_Validate (sch : String) (hs : sch ≠ "") (e : Env) :
+    EnvelopeSrc.Envelope_Validate (ofEnv H sch e) = goErr (Env.validate H e) :=
+  EnvSrc.src_Validate H sch hs e
+
+/-- **`(*Envelope).Sign`, regenerated, is `Env.sign`**: same error class and
+    same envelope afterwards (the new signature appended, or — on a failed
+    validation — ALL signatures dropped), for every envelope and key -/
+theorem src_Sign (sch : String) (hs : sch ≠ "") (e : Env) (k : Key) :
+    EnvelopeSrc.Envelope_Sign (ofEnv H sch e) (some k)
+      = (goErr (Env.step H e (.sign k)).2, ofEnv H sch (Env.step H e (.sign k)).1) :=
+  EnvSrc.src_Sign H sch hs e k
+
+/-- … with a key without material: `signature`, envelope unchanged (`Op.signBadKey`) -/
+theorem src_Sign_badKey (sch : String) (e : Env) :
+    EnvelopeSrc.Envelope_Sign (ofEnv H sch e) none
+      = (goErr (Env.step H e .signBadKey).2, ofEnv H sch (Env.step H e .signBadKey).1) :=
+  EnvSrc.src_Sign_badKey H sch e
+
+/-- … and the branch the model cannot be in (no header): refused, nothing changes -/
+theorem src_Sign_noHead (E : EnvSrc.Envelope) (key : Option Key) (h : E.Head = none) :
+    EnvelopeSrc.Envelope_Sign E key = (goErr .validation, E) :=
+  EnvSrc.src_Sign_noHead E key h
+
+/-- **`(*Envelope).Calculate`, regenerated, is `Env.calculate`** on an envelope
+    with a document whose header has an identifier (the model does not follow
+    the assignment of a fresh uuid): `$schema` reset, document calculated, the
+    header digest refreshed.  Signatures do NOT stop it (there is no refusal
+    when signed in the code) -/
+theorem src_Calculate (sch : String) (e : Env) (d : Doc) (hdoc : e.doc = some d)
+    (hz : uuidIsZero (some e.head.uuid) = false) :
+    EnvelopeSrc.Envelope_Calculate (ofEnv H sch e)
+      = (goErr (Env.step H e .calculate).2, ofEnv H EnvelopeSrc.EnvelopeSchema (Env.step H e .calculate).1) :=
+  EnvSrc.src_Calculate H sch e d hdoc hz
+
+example : ∃ (e : Env) (d : Doc), e.doc = some d ∧ uuidIsZero (some e.head.uuid) = false :=
+  ⟨{ emptyEnv exUuid with doc := some exInvoice }, exInvoice, rfl, by decide⟩
+
+/-- … without a document (nil, or `NewEnvelope`'s empty object): `no-document`, nothing changes -/
+theorem src_Calculate_noDoc (sch : String) (e : Env) (hdoc : e.doc = none) :
+    EnvelopeSrc.Envelope_Calculate (ofEnv H sch e)
+      = (goErr (Env.step H e .calculate).2, ofEnv H sch (Env.step H e .calculate).1) :=
+  EnvSrc.src_Calculate_noDoc H sch e hdoc
+
+theorem src_Calculate_emptyObj (E : EnvSrc.Envelope) (o : Obj) (h : E.Document = some o) (he : o.empty = true) :
+    EnvelopeSrc.Envelope_Calculate E = (goErr .noDocument, E) :=
+  EnvSrc.src_Calculate_emptyObj E o h he
+
+/-- **`(*Envelope).Insert`, regenerated, is `Env.insert`**, whether the argument
+    is a `*schema.Object` or a payload that `schema.NewObject` accepts: the
+    document is replaced FIRST, then calculated -/
+theorem src_Insert (sch : String) (e : Env) (d : Doc) (hz : uuidIsZero (some e.head.uuid) = false) :
+    EnvelopeSrc.Envelope_Insert (ofEnv H sch e) (.obj (some (ofDoc H d)))
+      = (goErr (Env.step H e (.insert d)).2, ofEnv H EnvelopeSrc.EnvelopeSchema (Env.step H e (.insert d)).1) ∧
+    EnvelopeSrc.Envelope_Insert (ofEnv H sch e) (.other (some (ofDoc H d)) none)
+      = (goErr (Env.step H e (.insert d)).2, ofEnv H EnvelopeSrc.EnvelopeSchema (Env.step H e (.insert d)).1) :=
+  ⟨EnvSrc.src_Insert_obj H sch e d hz, EnvSrc.src_Insert_other H sch e d hz⟩
+
+/-- … a nil document is refused and nothing changes -/
+theorem src_Insert_nil (sch : String) (e : Env) :
+    EnvelopeSrc.Envelope_Insert (ofEnv H sch e) .nil = (goErr .noDocument, ofEnv H sch e) :=
+  EnvSrc.src_Insert_nil H sch e
+
+/-- **`(*Envelope).verifySignature`, regenerated, is `verifySignature`**: same
+    verdict (as the `errors.New` text) for every header, signature entry (nil
+    too) and key list -/
+theorem src_verifySignature (sch : String) (e : Env) (sg : Option Sig) (ks : List Key) :
+    EnvelopeSrc.Envelope_verifySignature (ofEnv H sch e) sg (ks.map some)
+      = verdictErr (verifySignature e.head sg ks) :=
+  EnvSrc.src_verifySignature H sch e sg ks
+
+/-- **`(*Envelope).Verify`, regenerated, is `Env.verify`**: `signature` when
+    there is nothing to verify, nil exactly when EVERY entry verifies, otherwise
+    `validation` -/
+theorem src_Verify (sch : String) (e : Env) (ks : List Key) :
+    EnvelopeSrc.Envelope_Verify (ofEnv H sch e) (ks.map some) = verifyErr (e.verify ks) :=
+  EnvSrc.src_Verify H sch e ks
+
+/-- the refinement theorem read off the regenerated code: the error class that
+    the translated `Sign` / `Validate` / `Verify` return is the entry of the
+    16-row table for the abstract state -/
+theorem src_refines_outcome (sch : String) (hs : sch ≠ "") (e : Env) :
+    (∀ k, (EnvelopeSrc.Envelope_Sign (ofEnv H sch e) (some k)).1 = goErr (specOutcome (abs H e) (.sign k))) ∧
+    EnvelopeSrc.Envelope_Validate (ofEnv H sch e) = goErr (specOutcome (abs H e) .validate) ∧
+    (∀ ks, outcomeOf (EnvelopeSrc.Envelope_Verify (ofEnv H sch e) (ks.map some)) ≠ .ok ↔
+      specOutcome (abs H e) (.verify ks) ≠ .ok) := by
+  refine ⟨fun k => ?_, ?_, fun ks => ?_⟩
+  · rw [src_Sign H sch hs e k, refines_outcome]
+  · rw [src_Validate H sch hs e, ← refines_outcome]; rfl
+  · rw [src_Verify H sch e ks, ← refines_outcome]
+    simp only [Env.step]
+    cases e.verify ks <;> simp [verifyErr, outcomeOf, VerifyOut.outcome]
+
+example : ∃ sch : String, sch ≠ "" := ⟨EnvelopeSrc.EnvelopeSchema, by decide⟩
+
+/-- a failed second `Sign` of the regenerated code leaves NO signature (C10-1) -/
+theorem src_failed_sign_leaves_unsigned (sch : String) (hs : sch ≠ "") (e : Env) (k : Key)
+    (h : (EnvelopeSrc.Envelope_Sign (ofEnv H sch e) (some k)).1 ≠ none) :
+    (EnvelopeSrc.Envelope_Sign (ofEnv H sch e) (some k)).2.Signatures = [] := by
+  rw [src_Sign H sch hs e k] at h ⊢
+  have hne : (Env.step H e (.sign k)).2 ≠ .ok := by
+    intro hc; apply h; simp [hc, goErr]
+  simp [ofEnv, (failed_sign_leaves_unsigned H e k hne).1]
+
+example : (EnvelopeSrc.Envelope_Sign (ofEnv exH EnvelopeSrc.EnvelopeSchema
+      (Env.after exH (emptyEnv exUuid) [.insert exInvoice, .sign 1, .editDoc 7])) (some 2)).1 ≠ none := by decide
+
+end Src
 
 /-! ## expectations over facts regenerated from /repo on every run
 
